@@ -15,6 +15,7 @@ import (
 	"context"
 	"errors"
 	"fmt"
+	"io"
 	"math/rand/v2"
 	"runtime"
 	"sort"
@@ -407,6 +408,106 @@ func deleteVersusTagPush(run *evid.Run, iters int) {
 	run.Distinct("concurrent/delete-versus-tag-push")
 }
 
+// uploadSessionAfterlife: in immutable-tags mode a layer arrives through a chunked upload; after the
+// commit the caller goes on using the writer and the upload id the way callers do (Cancel in a defer,
+// Close, another Commit, a resume of the id and more writes, each of which may be refused); then an
+// image referring to the layer is tagged and the same is done again. Whatever those calls answer, the
+// tag resolves to the same bytes and the layer it references is retrievable with its bytes.
+func uploadSessionAfterlife(run *evid.Run, idx int) {
+	rng := run.Rand(147, uint64(idx))
+	reg := ocimem.NewWithConfig(&ocimem.Config{ImmutableTags: true})
+	ctx := context.Background()
+	repo := fmt.Sprintf("al/r%d", idx)
+	layer := []byte(fmt.Sprintf("layer %d %s", idx, strings.Repeat("L", rng.IntN(300))))
+	ld := ociregistry.Digest(model.Digest(layer))
+	w, err := reg.PushBlobChunked(ctx, repo, 0)
+	if err != nil {
+		run.Inconclusive("upload-session-afterlife setup: " + err.Error())
+		return
+	}
+	id := w.ID()
+	for rest := layer; len(rest) > 0; {
+		n := 1 + rng.IntN(len(rest))
+		w.Write(append([]byte(nil), rest[:n]...))
+		rest = rest[n:]
+	}
+	if _, err := w.Commit(ld); err != nil {
+		run.Violation("afterlife/commit-failed", "a chunked upload written in full and committed with its digest failed: "+err.Error(), nil)
+		return
+	}
+	var log []string
+	afterlife := func() {
+		for k, n := 0, 1+rng.IntN(4); k < n; k++ {
+			switch a := rng.IntN(6); a {
+			case 0:
+				log = append(log, fmt.Sprintf("Cancel=%v", w.Cancel()))
+			case 1:
+				log = append(log, fmt.Sprintf("Close=%v", w.Close()))
+			case 2:
+				_, err := w.Commit(ld)
+				log = append(log, fmt.Sprintf("Commit(same)=%v", err))
+			case 3:
+				_, err := w.Write([]byte("more"))
+				log = append(log, fmt.Sprintf("Write=%v", err))
+			case 4:
+				off := []int64{-1, int64(len(layer)), 0}[rng.IntN(3)]
+				w2, err := reg.PushBlobChunkedResume(ctx, repo, id, off, 0)
+				log = append(log, fmt.Sprintf("Resume(%d)=%v", off, err))
+				if err == nil {
+					_, err := w2.Write([]byte("tail after resume"))
+					log = append(log, fmt.Sprintf("  Write=%v", err))
+					if rng.IntN(2) == 0 {
+						_, err := w2.Commit(ociregistry.Digest(model.Digest([]byte("tail after resume"))))
+						log = append(log, fmt.Sprintf("  Commit(tail)=%v", err))
+					} else if rng.IntN(2) == 0 {
+						log = append(log, fmt.Sprintf("  Cancel=%v", w2.Cancel()))
+					}
+				}
+			case 5:
+				_, err := w.Commit(ociregistry.Digest(model.Digest([]byte("other"))))
+				log = append(log, fmt.Sprintf("Commit(other)=%v", err))
+			}
+		}
+	}
+	run.Eval(1)
+	if idx%2 == 0 {
+		afterlife()
+	}
+	cfg := []byte("{}")
+	reg.PushBlob(ctx, repo, ociregistry.Descriptor{MediaType: "application/octet-stream", Digest: ociregistry.Digest(model.Digest(cfg)), Size: 2}, bytes.NewReader(cfg))
+	img := []byte(fmt.Sprintf(`{"schemaVersion":2,"mediaType":%q,"config":{"mediaType":"application/octet-stream","digest":%q,"size":2},"layers":[{"mediaType":"application/octet-stream","digest":%q,"size":%d}]}`, model.MTImage, model.Digest(cfg), ld, len(layer)))
+	if _, err := reg.PushManifest(ctx, repo, "v1", img, model.MTImage); err != nil {
+		// the layer was committed; a refusal here means it is already gone or altered
+		run.Violation("afterlife/tag-push-refused", fmt.Sprintf("an image whose layer was committed through a chunked upload could not be tagged: %v", err), map[string]any{"calls_after_commit": log})
+		return
+	}
+	afterlife()
+	wit := map[string]any{"calls_after_commit": log, "layer_len": len(layer)}
+	rd, err := reg.GetBlob(ctx, repo, ld)
+	if err != nil {
+		run.Violation("immutable-tags/referenced-content-lost/afterlife", fmt.Sprintf("the layer of tagged image v1 is no longer retrievable: %v", err), wit)
+		return
+	}
+	got, _ := io.ReadAll(rd)
+	rd.Close()
+	if !bytes.Equal(got, layer) {
+		run.Violation("immutable-tags/referenced-content-changed/afterlife", fmt.Sprintf("the layer of tagged image v1 now reads as %d bytes hashing to %s (it is addressed as %s, %d bytes)", len(got), model.Digest(got), ld, len(layer)), wit)
+		return
+	}
+	tr, err := reg.GetTag(ctx, repo, "v1")
+	if err != nil {
+		run.Violation("immutable-tags/tag-lost/afterlife", fmt.Sprintf("tag v1 no longer resolves: %v", err), wit)
+		return
+	}
+	tb, _ := io.ReadAll(tr)
+	tr.Close()
+	if !bytes.Equal(tb, img) {
+		run.Violation("immutable-tags/tag-changed/afterlife", "tag v1 resolves to other bytes", wit)
+	}
+	run.Count("upload_session_afterlives", 1)
+	run.Distinct(fmt.Sprintf("afterlife/calls=%d", min(len(log), 6)))
+}
+
 // pressure builds operations aimed at the protections: overwrite an observed tag with
 // other content, delete a tagged manifest or something it references.
 func pressure(rng *rand.Rand, u *model.Universe, m *model.Model, mo *monitor) *model.Op {
@@ -582,6 +683,10 @@ func main() {
 	}
 	deleteVersusTagPush(run, run.N(4000, 100000))
 	run.FloorCounter("delete_vs_tag_push_rounds", 1000)
+	for i, n := 0, run.N(300, 10000); i < n; i++ {
+		uploadSessionAfterlife(run, i)
+	}
+	run.FloorCounter("upload_session_afterlives", 250)
 	run.FloorCounter("readonly_mutations_refused", 100)
 	run.FloorCounter("immutable-wrapper/tags_observed", 50)
 	run.FloorCounter("immutable-tags/tags_observed", 50)
